@@ -28,7 +28,7 @@ Preds(l) == {[op |-> "ge", col |-> "k", c |-> 1], [op |-> "notnull", col |-> "v"
 (* tables of more than 6 rows: only the derivations whose permitted results need no enumeration of permutations *)
 HowsBig(l) == {[name |-> "head", n |-> 5], [name |-> "tail", n |-> 7], [name |-> "copy"]} \cup {[name |-> "filter", pred |-> p] : p \in Preds(l)}
 Hows(l) == IF NRows(l.tab) > 6 THEN HowsBig(l) ELSE
-       {[name |-> "head", n |-> n] : n \in 1..3} \cup {[name |-> "tail", n |-> n] : n \in 1..2}
+       {[name |-> "head", n |-> n] : n \in 0..3} \cup {[name |-> "tail", n |-> n] : n \in 0..2}
   \cup {[name |-> "filter", pred |-> p] : p \in Preds(l)}
   \cup {[name |-> "sample", n |-> n] : n \in 1..Min2(2, NRows(l.tab))}
   \cup {[name |-> "sort", col |-> "k", desc |-> d] : d \in BOOLEAN} \cup {[name |-> "sort", col |-> "v", desc |-> FALSE]}
